@@ -384,9 +384,6 @@ func zzH_C05_bytes() {
 	}
 	opbits := unit / 4
 	initial := append([]byte(nil), target...)
-	if cap(target) > 0 {
-		zzMarkCaller(target[:cap(target)], "slice given to NewBytesWriter")
-	}
 	w := NewBytesWriter(&target)
 	var written []byte
 	var lazyBuf, lazyFill [][]byte
